@@ -193,6 +193,49 @@ def parse_case(run, fmt, lines, exp, tag):
     return ok
 
 
+def repeated_import_case(run, rng, fmt):
+    """repeated imports of one path: each call returns what the file contains *now*, as fresh objects — whatever was done with an
+    earlier result (in-place update of a shell built from it, editing the returned dictionary) or to the file in between"""
+    from gbasis.parsers import make_contractions, parse_gbs, parse_nwchem
+    parse = parse_nwchem if fmt == "nw" else parse_gbs
+    d1, d2 = rand_desc(rng), rand_desc(rng)
+    l1, l2 = render(rng, d1, fmt, 2), render(rng, d2, fmt, 2)
+    e1, e2 = expected(d1, fmt == "gbs"), expected(d2, fmt == "gbs")
+    with tempfile.NamedTemporaryFile("w", suffix="." + fmt, delete=False) as fh:
+        fh.write("\n".join(l1) + "\n")
+        path = fh.name
+    rep = {"case": "repeated-import", "format": fmt, "text": "\n".join(l1) + "\n", "text2": "\n".join(l2) + "\n"}
+    run.case(("repeated-import", fmt, hash(rep["text"]) & 0xFFFFFF))
+    run.count("repeated import " + fmt)
+    ok = True
+    try:
+        r1 = parse(path)
+        el = next(iter(r1))
+        basis = make_contractions(r1, [el], np.zeros((1, 3)), "cartesian")
+        basis[0].exps *= 1.44                      # in-place parameter update of a shell built from the first result
+        basis[0].assign_norm_cont()
+        r1[el].append((0, np.array([1.0]), np.array([[1.0]])))      # the caller edits the dictionary it was given
+        r2 = parse(path)
+        if flatten_impl(r2) != e1:
+            run.violation("a second import of the same unchanged file does not return the file's contents (the result depends on what "
+                          "was done with the first result)", dict(rep, signature={"kind": "parse-repeat"}))
+            ok = False
+        r3 = parse(path)
+        arrs = lambda r: [a for shells in r.values() for sh in shells for a in sh[1:] if isinstance(a, np.ndarray)]
+        if any(np.shares_memory(a, b) for a in arrs(r2) for b in arrs(r3)):
+            run.violation("two imports of the same file return arrays that share memory", dict(rep, signature={"kind": "parse-alias"}))
+            ok = False
+        with open(path, "w") as fh:
+            fh.write("\n".join(l2) + "\n")
+        r4 = parse(path)
+        if flatten_impl(r4) != e2:
+            run.violation("an import after the file was rewritten does not return the new contents", dict(rep, signature={"kind": "parse-stale"}))
+            ok = False
+    finally:
+        os.unlink(path)
+    return ok
+
+
 def contractions_case(run, rng):
     from gbasis.parsers import make_contractions
     nel = rng.randint(1, 3)
@@ -307,6 +350,8 @@ def check(run):
                     continue
                 lines = render(rng, desc, fmt, npre)
                 parse_case(run, fmt, lines, expected(desc, fmt == "gbs"), str(npre))
+    for k in range(4 if quick else 30):
+        repeated_import_case(run, rng, "nw" if k % 2 else "gbs")
     for _ in range(10 if quick else 100):
         contractions_case(run, rng)
     for _ in range(4 if quick else 30):
@@ -325,7 +370,10 @@ def check(run):
 
 def replay(run, rep):
     n0 = len(run.violations)
-    if rep["case"] == "parse":
+    if rep["case"] == "repeated-import":
+        for k in range(6):
+            repeated_import_case(run, run.rng, rep["format"])
+    elif rep["case"] == "parse":
         lines = rep["text"].split("\n")[:-1]
         parse_case(run, rep["format"], lines, None, rep.get("tag", "?"))
         # content check against the model only (the description is not stored)
